@@ -24,7 +24,7 @@ def root_name(e):
 
 
 def modified(body):
-    rebound, mutated = set(), set()
+    rebound, mutated, called = set(), set(), set()
 
     def tgt(t):
         if isinstance(t, ast.Name):
@@ -51,9 +51,11 @@ def modified(body):
                 r = root_name(n.func.value)
                 if r:
                     mutated.add(r)
+            elif isinstance(n, ast.Call) and isinstance(n.func, ast.Attribute) and isinstance(n.func.value, ast.Name):
+                called.add(n.func.value.id)
             elif isinstance(n, ast.ExceptHandler) and n.name:
                 rebound.add(n.name)
-    return rebound, mutated
+    return rebound, mutated, called
 
 
 def get_invariant(ex, node):
@@ -108,8 +110,9 @@ def oblige_inv(ex, st, kind, k, clauses, t, what):
 
 
 def havoc(ex, st, body, inv, extra_rebound=()):
-    rebound, mutated = modified(body)
+    rebound, mutated, called = modified(body)
     rebound |= set(extra_rebound)
+    havoc_generators(ex, st, called, body)
     decls = inv_decls(ex, inv) if inv is not None else {}
     for nm in sorted(rebound | mutated):
         if nm not in st.env:
@@ -145,6 +148,23 @@ def havoc(ex, st, body, inv, extra_rebound=()):
                 st.store(cur, nv)       # same object, unknown content (frame obligations arise at the real writes)
         else:
             st.env[nm] = nv
+
+
+def havoc_generators(ex, st, called, body):
+    """a Generator used inside the loop: its state at the loop head is an unknown *function of the entry state*
+    (draws stay deterministic in the seed); the global generator likewise when the body may draw from it"""
+    from .rng_rules import ST, F, global_state, set_global
+    for nm in sorted(called):
+        v = st.env.get(nm)
+        pv = st.deref(v) if isinstance(v, Ref) else v
+        if isinstance(pv, SGen) and isinstance(v, Ref):
+            k = z3.Int(fresh_name('iter'))
+            st.store(v, SGen(F('loop_state', ST, z3.IntSort(), ST)(pv.state, k)))
+    src = ast.unparse(ast.Module(list(body), []))
+    if 'np.random.' in src or '(n)' in src or any(isinstance(st.deref(x) if isinstance(x, Ref) else x, SFun) for x in st.env.values()):
+        k = z3.Int(fresh_name('iter'))
+        g = global_state(st)
+        st.ghost['G'] = F('loop_state', ST, z3.IntSort(), ST)(g, k)
 
 
 def exec_while(ex, t, st):
